@@ -18,6 +18,7 @@ case "$1" in
     GOTOOLCHAIN=local go1.26.8 build -tags verif -o /verif/bin/archesim_126 ./cmd/archesim
     # without the verif tag: the library exactly as users build it (hook calls could perturb inlining / escape analysis)
     go build -o /verif/bin/archesim_plain ./cmd/archesim
+    go build -o /verif/bin/gcstress ./cmd/gcstress
     # the compiler's escape verdict for the call-site shapes, recorded as evidence
     go build -tags verif -gcflags=-m . 2>&1 | grep 'shapes.go' | grep -v 'inline' > /verif/bin/escape_report.txt || true;;
 esac
